@@ -108,10 +108,17 @@ def expected_agnostic_note(note, clef, kp):
     return ag
 
 
+def _col(arow, srow, c):
+    return srow.index(c)
+
+
 def doc_level(ctx: Ctx, cs):
     import kernpy as kp
     doc, pname = make_doc(cs, ['kern_only', 'default', 'splitty', 'kern_only'][cs % 4], types=('**kern', '**kern', '**text', '**dynam'),
-                          p_midsig=0.2, p_sig=1.0, allow_nodur=False)
+                          p_midsig=0.2, p_sig=1.0, allow_nodur=False,
+                          # a fifth of the documents have '@' / '·' inside lyrics and comments (how the kern export treats them is C03's
+                          # business; here only: the agnostic export treats them the same way)
+                          separator_text=0.3 if cs % 5 == 2 else 0.0)
     x = doc.text(0)
     ctx.ev()
     ctx.mon('documents')
@@ -143,11 +150,20 @@ def doc_level(ctx: Ctx, cs):
         key = 'agnostic-export-raises'
         ctx.violation(key, f'agnostic export raised {type(er).__name__}: {er}', case)
         return
-    if GM.strip_separators(yae).replace('**aekern', '**akern') != ya and \
+    if 'separator_in_text_cell' not in doc.tags and GM.strip_separators(yae).replace('**aekern', '**akern') != ya and \
             '\n'.join(GM.strip_separators(l) for l in yae.split('\n')) .replace('**ae', '**a') != ya:
         ctx.violation('akern-vs-aekern', 'akern is not aekern without separators', case)
     ga = kpx.grid(ya)
+    if 'separator_in_text_cell' in doc.tags:
+        # a row whose only content is a separator character inside a text cell is a null row once the separators are gone
+        ag = [row for row in ag if not all(GM.strip_separators(c.text) in ('', '.', '*') for c in row)]
     gk = [[GM.strip_separators(c.text) for c in row] for row in ag]
+    # the real kern export, cell for cell (non-note cells must be identical in both)
+    yreal, errk = kpx.dumps(d)
+    greal = kpx.grid(yreal) if errk is None else None
+    if greal is not None and (len(greal) != len(ga) or any(len(a) != len(b) for a, b in zip(greal, ga))):
+        ctx.violation('agnostic-grid-shape', f'akern export has {len(ga)} lines, kern export {len(greal)}', case)
+        return
     if len(ga) != len(ag) or any(len(a) != len(b) for a, b in zip(ga, ag)):
         ctx.violation('agnostic-grid-shape', f'akern export has {len(ga)} lines, kern export {len(ag)}', case)
         return
@@ -160,8 +176,13 @@ def doc_level(ctx: Ctx, cs):
                 continue
             if c.kind not in ('note', 'chord'):
                 ctx.mon('non_note_cells')
-                if oa != ok_:
-                    ctx.violation('non-note-cell-changed', f'{c.kind} cell {ok_!r} is {oa!r} in akern', case)
+                if greal is None:
+                    if oa != ok_:
+                        ctx.violation('non-note-cell-changed', f'{c.kind} cell {ok_!r} is {oa!r} in akern', case)
+                elif oa != greal[r][_col(arow, srow, c)]:
+                    ctx.violation('non-note-cell-changed', f'{c.kind} cell is {greal[r][_col(arow, srow, c)]!r} in the kern export and {oa!r} in akern', case)
+                else:
+                    ctx.mon('non_note_cells_equal_to_real_kern')
                 continue
             clef = cx[(c.line, c.col)]['clef']
             notes = [c.obj] if c.kind == 'note' else c.obj.notes
